@@ -57,6 +57,9 @@ CHECKS = {
             "One seeded generator of concurrent programs (2-6 goroutines x 3-10 calls over AddTrack, RemoveTrack, AddTransceiver*, CreateDataChannel, Get{Transceivers,Senders,Receivers}, the state/description getters, GetStats, WriteRTP, a final Close/GracefulClose in half the cases, plus one goroutine doing 1-3 serialized offer/answer rounds with a second real PeerConnection), run two ways. (a) Race-detector build, real goroutines, real time, perturbation (yield / microsecond sleep) at every instrumented lock/atomic/receive site with the shim in a bookkeeping-free mode; oracle: the Go race detector (first report ends the run) and a 45 s watchdog for calls that do not return. (b) Ordinary build in a fake-time bubble under the seeded cooperative scheduler with scheduling points at every lock/atomic site of peerconnection.go, rtptransceiver.go, rtpsender.go, rtpreceiver.go, sctptransport.go, stats_go.go, track_local_static.go; oracle: every task finishes (a lock-order or wait-for cycle leaves tasks that can never run).",
             "In (a) the interleaving is the Go runtime's, perturbed, not chosen by the seed: a scheduler that decides every step hands control between goroutines through synchronisation the race detector would count as happens-before, hiding the races it is there to find; the seed decides the program, and replay is statistical (decision-exact, 10 fresh processes). The simulated network's own mutex is shared by packet-sending goroutines and may hide races between them. (b) is replayable from its recorded schedule like the other cooperative checks. " + COOP_NOTE,
             "seeded concurrent-program generation; (a) Go race detector + site perturbation, (b) deterministic simulation under the seeded cooperative scheduler (deadlock search)", "§6 C40"),
+    "C30": ("pcsim", "exploration",
+            "A hostile remote peer against a real victim PeerConnection in a fake-time bubble: valid browser-like descriptions (RTX ssrc-groups, simulcast rids, Plan-B multi-source sections, text sections) with 0-8 seeded line-grammar mutations (delete/duplicate/swap/truncate lines, boundary numbers, ~170 hostile attribute and m= lines, m-line rewrites, raw bytes) applied as offer (+CreateAnswer, SetLocalDescription, mutated re-offer) or as answer to the victim's own offer, under Unified Plan / Plan B / Unified-Plan-with-fallback and four kinds of local state; mutated candidate strings through AddICECandidate; and, on a really connected pair, 5-40 hostile RTP and 2-15 hostile RTCP packets protected with the sender's own SRTP/SRTCP keys (unknown SSRCs, any payload type, mid/rid/rrid extensions, lying lengths, truncation). After every step the bubble runs to quiescence for seconds of fake time, and the connection is closed at the end, so background work (operations queue, transport and receiver start-up, undeclared-SSRC probing) happens inside the run. Oracle: no panic on the calling goroutine (caught, attributed to the call) and none on any other goroutine (worker death, attributed by message and first pion frame).",
+            PC_NOTE + " Mutation is seeded and grammar-based, not coverage-guided.", TECH_PC + "; process-survival oracle", "§6 C30"),
     "C20": ("pcsim", "exploration",
             "Same engine as C18 with local Close/GracefulClose, remote close, Send and PeerConnection.Close/GracefulClose tasks around the open handshake. A sampler reads readyState of every channel object (local and announced, both peers) at every scheduling step. Oracle: the sampled sequence never moves backwards along connecting < open < closing < closed; OnOpen and OnClose each run at most once per registration; Send on a channel that is not open returns an error; a channel on which Close returned is closed once both PeerConnections are closed.",
             PC_NOTE + " Runs in which a GracefulClose waits forever for a stream reset the remote never sends (channel closed before its open message was delivered; documented GracefulClose behaviour) are counted inconclusive.", TECH_COOP + " (focus-coop inside a whole-pair simulation, per-step state sampler)", "§6 C20"),
